@@ -69,7 +69,14 @@ def check(ck):
     n5 = 0
     for (n, desc, recv) in common.mutations(fc):
         t = prov.origin(g, n, recv)
-        if prov.contains(t, lambda x: x == ("param", param)):
+
+        def _part_of_reply(a):
+            # the reply itself, a member / element / attribute of it, or what its .get() hands out: the same mutable objects; a value
+            # *computed* from the reply (an exception built from its members) is a new object
+            while a[0] in ("attr", "item", "elem") or (a[0] == "call" and a[1][0] == "attr" and a[1][2] in ("get", "setdefault", "pop")):
+                a = a[1] if a[0] != "call" else a[1][1]
+            return a == ("param", param)
+        if any(_part_of_reply(a) for a in prov.value_alts(t)):
             n5 += 1
             ck.bad("C06.5", "%s: %s" % (q.fn(fc), desc), "check_for_errors modifies the reply it checks (%s on %s): checking or reading the same reply "
                    "again (results[i] twice, iterate then index) no longer raises the error" % (desc, prov.show(t)[:50]), q.loc(fc, n))
